@@ -174,6 +174,12 @@ func (ix *Index) indexReadyBlobs(ctx context.Context) {
 // ix.mu must be held.
 func (ix *Index) noteBlobIndexedLocked(br blob.Ref) {
 	for _, needer := range ix.neededBy[br] {
+		// The persisted edge goes away with the in-memory one; otherwise it
+		// would be loaded again at the next start, for a dependency that
+		// will never be indexed again.
+		if err := ix.s.Delete(keyMissing.Key(needer, br)); err != nil {
+			log.Printf("Error deleting missing edge %v -> %v: %v", needer, br, err)
+		}
 		newNeeds := blobsFilteringOut(ix.needs[needer], br)
 		if len(newNeeds) == 0 {
 			ix.readyReindex[needer] = true
